@@ -19,14 +19,14 @@ Proof. reflexivity. Qed.
 (** ** The model side, in the vocabulary of the translation *)
 
 (** model functions taking class objects *)
-Definition rebuild_cls (E : env) : T_rebuild :=
-  fun cf items => match cf with ClsSeq c => rebuild_collection E c items | _ => None end.
+Definition rebuild_cls (E : env) (cf : pycls) (items : list val) : res val :=
+  match cf with ClsSeq c => rebuild_collection E c items | _ => Err ETypeError end.
 Definition asdict_cls (E : env) : T_asdict :=
   fun x recurse flt d retain ser =>
-    match d with ClsDict k => asdict E recurse retain flt k ser x | _ => None end.
+    match d with ClsDict k => asdict E recurse retain flt k ser x | _ => Err ETypeError end.
 Definition anything_cls (E : env) : T_anything :=
   fun x is_key flt d retain ser =>
-    match d with ClsDict k => asdict_anything E is_key retain flt k ser x | _ => None end.
+    match d with ClsDict k => asdict_anything E is_key retain flt k ser x | _ => Err ETypeError end.
 Definition tf_cls (tf : tfk) : pycls :=
   match tf with TfTuple => ClsSeq (CfTuple TkT) | TfList => ClsSeq CfList | TfSub => ClsSeq (CfTuple TkS) end.
 Definition astuple_cls (E : env) : T_astuple :=
@@ -35,101 +35,91 @@ Definition astuple_cls (E : env) : T_astuple :=
     | ClsSeq (CfTuple TkT) => astuple E recurse retain flt TfTuple x
     | ClsSeq CfList => astuple E recurse retain flt TfList x
     | ClsSeq (CfTuple TkS) => astuple E recurse retain flt TfSub x
-    | _ => None
+    | _ => Err ETypeError
     end.
 
 (** One unfolding of [asdict_anything] with its recursive calls abstracted (the model function
     itself is a structural fixpoint; [asdict_anything_unfold] connects the two). *)
-Definition anything_step (E : env) (rec_inst : val -> option val) (rec_any : bool -> val -> option val)
-    (is_key retain : bool) (df : dkind) (ser : option ser_fn) (v : val) : option val :=
+Definition anything_step (E : env) (rec_inst : val -> res val) (rec_any : bool -> val -> res val)
+    (rebuild : ctor -> list val -> res val)
+    (is_key retain : bool) (df : dkind) (ser : option ser_fn) (v : val) : res val :=
   match v with
   | VI _ _ => rec_inst v
   | VL xs | VT _ xs | VS xs | VF xs =>
       let cf := if retain then class_of_seq v else if is_key then CfTuple TkT else CfList in
-      match seq_conv (rec_any is_key) xs with
-      | Some items => rebuild_collection E cf items
-      | None => None
-      end
+      bind (seq_conv (rec_any is_key) xs) (rebuild cf)
   | VD _ kvs =>
-      match pairs_conv (rec_any true) (rec_any false) kvs with
-      | Some ps => mk_dict E df ps
-      | None => None
-      end
-  | _ => Some (ser_value ser None v)
+      bind (pairs_conv E (rec_any true) (rec_any false) kvs) (fun ps => Ok (mk_dict df ps))
+  | _ => ser_value ser None v
   end.
 
 Lemma asdict_anything_unfold E k retain flt df ser v :
   asdict_anything E k retain flt df ser v =
   anything_step E (asdict E true retain flt df ser) (fun k' => asdict_anything E k' retain flt df ser)
-    k retain df ser v.
+    (rebuild_collection E) k retain df ser v.
 Proof. destruct v; reflexivity. Qed.
 
 Lemma astuple_unfold E recurse retain flt tf c vs :
   astuple E recurse retain flt tf (VI c vs) =
-  match fields_loop (passes flt)
+  bind (fields_loop (passes flt)
           (fun _ v => astuple_field E (fun flt' x => astuple E true retain flt' tf x) recurse retain flt v)
-          (fields_of E c) vs with
-  | Some items => Some (apply_tf tf (map snd items))
-  | None => None
-  end.
+          (fields_of E c) vs)
+       (fun items => Ok (apply_tf tf (map snd items))).
 Proof. reflexivity. Qed.
 
 (** ** Generic lemmas about the loop / comprehension combinators *)
 
-Lemma seq_conv_ext_all {A B} (f g : A -> option B) : (forall x, f x = g x) ->
+Lemma seq_conv_ext_all {A B} (f g : A -> res B) : (forall x, f x = g x) ->
   forall xs, seq_conv f xs = seq_conv g xs.
 Proof. intros H. induction xs as [|x r IH]; cbn; [reflexivity|]. now rewrite H, IH. Qed.
 
-Lemma pairs_conv2_ext {A B} (f : A -> A -> option (B * B)) (fk fv : A -> option B) :
-  (forall (k v : A), f k v = match fk k, fv v return option (B * B) with Some a, Some b => Some (a, b) | _, _ => None end) ->
-  forall kvs, pairs_conv2 f kvs = pairs_conv fk fv kvs.
+Lemma pairs_conv2_ext E (f : val -> val -> res (val * val)) (fk fv : val -> res val) :
+  (forall (k v : val), f k v = bind (fk k) (fun a => bind (fv v) (fun b => Ok (a, b)))) ->
+  forall kvs, pairs_conv2 E f kvs = pairs_conv E fk fv kvs.
 Proof.
   intros H. induction kvs as [|[k v] r IH]; cbn; [reflexivity|].
-  rewrite H, IH. destruct (fk k); [|reflexivity]. destruct (fv v); [|reflexivity].
-  destruct (pairs_conv fk fv r); reflexivity.
+  rewrite H, IH. unfold obind. destruct (fk k); cbn; [|reflexivity]. destruct (fv v); reflexivity.
 Qed.
 
 Definition skeys (l : list (string * val)) : list (val * val) := map (fun a => (VStr (fst a), snd a)) l.
 
 (** the [rv[a.name] = ...] loop is [fields_loop] followed by the assignments *)
-Lemma loop_fields_dict (body : tv -> field -> val -> option tv) (keep : field -> val -> bool) (conv : field -> val -> option val) (df : dkind) :
+Lemma loop_fields_dict (body : tv -> field -> val -> res tv) (keep : field -> val -> res bool)
+    (conv : field -> val -> res val) (df : dkind) :
   (forall d a v, body (TSame (VD df d)) a v =
-     if keep a v then obind (conv a v) (fun x => Some (TSame (VD df (dict_set d (VStr (fst a)) x))))
-     else Some (TSame (VD df d))) ->
+     bind (keep a v) (fun b =>
+       if b then bind (conv a v) (fun x => Ok (TSame (VD df (dict_set d (VStr (fst a)) x))))
+       else Ok (TSame (VD df d)))) ->
   forall vs fs d0,
     loop_fields body fs vs (TSame (VD df d0)) =
-    option_map (fun assigns => TSame (VD df (fold_left (fun d p => dict_set d (fst p) (snd p)) (skeys assigns) d0)))
-      (fields_loop keep conv fs vs).
+    bind (fields_loop keep conv fs vs)
+      (fun assigns => Ok (TSame (VD df (fold_left (fun d p => dict_set d (fst p) (snd p)) (skeys assigns) d0)))).
 Proof.
   intros H. induction vs as [|v r IH]; intros fs d0; [destruct fs; reflexivity|].
-  destruct fs as [|f fs']; [reflexivity|]. cbn [loop_fields fields_loop]. rewrite H.
-  destruct (keep f v).
-  - destruct (conv f v) as [x|]; cbn [obind]; [|reflexivity].
+  destruct fs as [|f fs']; [reflexivity|]. cbn [loop_fields fields_loop]. rewrite H. unfold obind.
+  destruct (keep f v) as [[|]|]; cbn [bind]; [| |reflexivity].
+  - destruct (conv f v) as [x|]; cbn [bind]; [|reflexivity].
     rewrite IH. destruct (fields_loop keep conv fs' r); reflexivity.
   - apply IH.
 Qed.
 
 (** the [rv.append(...)] loop *)
-Lemma loop_fields_list (body : list val -> field -> val -> option (list val)) (keep : field -> val -> bool) (conv : field -> val -> option val) :
+Lemma loop_fields_list (body : list val -> field -> val -> res (list val)) (keep : field -> val -> res bool)
+    (conv : field -> val -> res val) :
   (forall l a v, body l a v =
-     if keep a v then obind (conv a v) (fun x => Some (l ++ [x])%list) else Some l) ->
+     bind (keep a v) (fun b => if b then bind (conv a v) (fun x => Ok (l ++ [x])%list) else Ok l)) ->
   forall vs fs l0,
     loop_fields body fs vs l0 =
-    option_map (fun items : list (string * val) => (l0 ++ map snd items)%list) (fields_loop keep conv fs vs).
+    bind (fields_loop keep conv fs vs) (fun items : list (string * val) => Ok (l0 ++ map snd items)%list).
 Proof.
   intros H. induction vs as [|v r IH]; intros fs l0; [destruct fs; cbn; now rewrite app_nil_r|].
-  destruct fs as [|f fs']; [cbn; now rewrite app_nil_r|]. cbn [loop_fields fields_loop]. rewrite H.
-  destruct (keep f v).
-  - destruct (conv f v) as [x|]; cbn [obind]; [|reflexivity].
+  destruct fs as [|f fs']; [cbn; now rewrite app_nil_r|]. cbn [loop_fields fields_loop]. rewrite H. unfold obind.
+  destruct (keep f v) as [[|]|]; cbn [bind]; [| |reflexivity].
+  - destruct (conv f v) as [x|]; cbn [bind]; [|reflexivity].
     rewrite IH. destruct (fields_loop keep conv fs' r); cbn; [|reflexivity].
     now rewrite <- app_assoc.
   - apply IH.
 Qed.
-
-Ltac split_matches :=
-  repeat match goal with
-         | |- context [match ?x with _ => _ end] => is_var x; destruct x; cbn
-         end.
 
 Ltac destruct_inner :=
   match goal with
@@ -140,99 +130,94 @@ Ltac destruct_inner :=
       end
   end.
 Ltac fin :=
-  unfold obind; cbn; try reflexivity;
+  unfold obind, bind; cbn; try reflexivity;
   repeat (destruct_inner; cbn; try reflexivity).
 
-Ltac tie_seq retain k :=
-  destruct retain, k; cbn;
-  match goal with |- context [seq_conv ?f ?l] => destruct (seq_conv f l) end; fin.
-
-(** ** [_rebuild_collection] *)
+(** ** [_rebuild_collection] (called with a list) *)
 Lemma tie_rebuild_collection : forall E rA rN rR rT cf items,
-  t_rebuild_collection E rA rN rR rT cf items = rebuild_cls E cf items.
+  t_rebuild_collection E rA rN rR rT cf (IList items) = rebuild_cls E cf items.
 Proof.
   intros E rA rN rR rT cf items. unfold t_rebuild_collection, rebuild_cls, rebuild_collection.
-  destruct cf as [[|[|n|]| |]|k|]; cbn; try reflexivity;
-    repeat match goal with |- context [match ?x with _ => _ end] => destruct x; cbn end; reflexivity.
+  destruct cf as [[|[|n|]| |]|k|]; cbn; try reflexivity. all: solve [fin].
 Qed.
 
-(** ** [_asdict_anything] *)
-Lemma tie_asdict_anything : forall E rA rN rT v k flt df retain ser,
-  t_asdict_anything E rA rN (rebuild_cls E) rT (TSame v) k flt (ClsDict df) retain ser =
+(* from here on the helper is only used through [tie_rebuild_collection] *)
+Local Opaque t_rebuild_collection.
+
+(** ** [_asdict_anything]: for ALL callees, the rebuilding helper included - it must be
+    called with the finished list of converted members *)
+Lemma tie_asdict_anything : forall E rA rN (rR : T_rebuild) rT v k flt df retain ser,
+  t_asdict_anything E rA rN rR rT (TSame v) k flt (ClsDict df) retain ser =
   anything_step E (fun x => rA x true flt (ClsDict df) retain ser)
-                  (fun k' x => rN x k' flt (ClsDict df) retain ser) k retain df ser v.
+                  (fun k' x => rN x k' flt (ClsDict df) retain ser)
+                  (fun c items => rR (ClsSeq c) (IList items)) k retain df ser v.
 Proof.
-  intros E rA rN rT v k flt df retain ser. unfold t_asdict_anything.
+  intros E rA rN rR rT v k flt df retain ser. unfold t_asdict_anything.
   destruct v as [t i | s | c fs | xs | t xs | xs | xs | dk kvs | w x | ];
     cbn [tv_has tv_isinstance existsb val_isinstance orb anything_step tv_out].
-  all: try (unfold ser_value, ser_apply; destruct ser as [s0|]; cbn;
-            [match goal with |- context [s0 ?a ?b] => destruct (s0 a b) end|]; reflexivity).
-  - (* instance *) destruct (rA _ _ _ _ _ _); reflexivity.
-  - tie_seq retain k.
-  - tie_seq retain k.
-  - tie_seq retain k.
-  - tie_seq retain k.
-  - (* dict *)
-    cbn. rewrite (pairs_conv2_ext _ (fun x => rN x true flt (ClsDict df) retain ser)
+  all: try (unfold ser_value, ser_apply; destruct ser as [s0|]; solve [fin]).
+  all: try solve [fin].
+  all: try (destruct retain, k; solve [fin]).
+  (* dict *)
+  cbn. rewrite (pairs_conv2_ext E _ (fun x => rN x true flt (ClsDict df) retain ser)
                                     (fun x => rN x false flt (ClsDict df) retain ser)).
-    + destruct (pairs_conv _ _ kvs) as [ps|]; cbn; [|reflexivity]. destruct (mk_dict E df ps); reflexivity.
-    + intros a b. cbn. destruct (rN a _ _ _ _ _); cbn; [|reflexivity]. destruct (rN b _ _ _ _ _); reflexivity.
+  - solve [fin].
+  - intros a b. solve [fin].
 Qed.
 
 (** ** [asdict] *)
-Lemma tie_asdict : forall E rA rN rT c vs recurse flt df retain ser,
-  t_asdict E rA rN (rebuild_cls E) rT (TSame (VI c vs)) recurse flt (ClsDict df) retain ser =
+Lemma tie_asdict : forall E rA rN rR rT c vs recurse flt df retain ser,
+  t_asdict E rA rN (t_rebuild_collection E rA rN rR rT) rT (TSame (VI c vs)) recurse flt (ClsDict df) retain ser =
   asdict_body E (fun x => rA x true flt (ClsDict df) retain ser)
                 (fun k x => rN x k flt (ClsDict df) retain ser) recurse retain flt df ser c vs.
 Proof.
-  intros E rA rN rT c vs recurse flt df retain ser. unfold t_asdict, asdict_body.
-  cbn [cls_call0 obind tv_fields tv_field_values].
+  intros E rA rN rR rT c vs recurse flt df retain ser. unfold t_asdict, asdict_body.
+  cbn [cls_call0 obind bind tv_fields tv_field_values].
   rewrite (loop_fields_dict _ (passes flt)
              (asdict_field E (fun x => rA x true flt (ClsDict df) retain ser)
                 (fun k x => rN x k flt (ClsDict df) retain ser) recurse retain df ser c) df).
   - destruct (fields_loop _ _ _ _); reflexivity.
   - intros d a v. unfold asdict_field, passes, ser_apply.
-    destruct flt as [p|]; cbn; [destruct (p a v); cbn; [|reflexivity]|].
-    all: destruct ser as [s0|]; cbn; [destruct (s0 (Some (c, fst a)) v); cbn|].
+    destruct flt as [p|]; cbn; [destruct (p a v) as [[|]|]; cbn; try reflexivity|].
+    all: destruct ser as [s0|]; cbn; [destruct (s0 (Some (c, fst a)) v) as [[x|]|]; cbn; try reflexivity|].
     all: destruct recurse; cbn; try reflexivity.
     all: destruct v as [t i | s | c' fs | xs | t xs | xs | xs | dk kvs | w x | ]; cbn; try reflexivity.
-    all: try (destruct (rA _ _ _ _ _ _); reflexivity).
-    all: try (destruct retain; cbn;
-              match goal with |- context [seq_conv ?f ?l] => destruct (seq_conv f l) end; solve [fin]).
-    all: match goal with |- context [pairs_conv ?fk ?fv ?l] => rewrite (pairs_conv2_ext _ fk fv) end;
-         [destruct (pairs_conv _ _ kvs) as [ps|]; solve [fin]
-         |intros a0 b0; cbn; destruct (rN a0 _ _ _ _ _); cbn; [|reflexivity]; destruct (rN b0 _ _ _ _ _); reflexivity].
+    all: try solve [fin].
+    all: try (destruct retain; cbn; unfold obind, bind;
+              match goal with |- context [seq_conv ?f ?l] => destruct (seq_conv f l) end; cbn;
+              rewrite ?tie_rebuild_collection; solve [fin]).
+    all: match goal with |- context [pairs_conv ?e ?fk ?fv ?l] => rewrite (pairs_conv2_ext e _ fk fv) end;
+         [solve [fin] | intros a0 b0; solve [fin]].
 Qed.
 
 (** ** [astuple] *)
-Lemma tie_astuple : forall E rA rN rT c vs recurse flt tf retain,
-  t_astuple E rA rN (rebuild_cls E) rT (TSame (VI c vs)) recurse flt (tf_cls tf) retain =
-  match fields_loop (passes flt)
+Lemma tie_astuple : forall E rA rN rR rT c vs recurse flt tf retain,
+  t_astuple E rA rN (t_rebuild_collection E rA rN rR rT) rT (TSame (VI c vs)) recurse flt (tf_cls tf) retain =
+  bind (fields_loop (passes flt)
           (fun _ v => astuple_field E (fun flt' x => rT x true flt' (tf_cls tf) retain) recurse retain flt v)
-          (fields_of E c) vs with
-  | Some items => Some (apply_tf tf (map snd items))
-  | None => None
-  end.
+          (fields_of E c) vs)
+       (fun items => Ok (apply_tf tf (map snd items))).
 Proof.
-  intros E rA rN rT c vs recurse flt tf retain. unfold t_astuple.
-  cbn [obind tv_fields tv_field_values].
+  intros E rA rN rR rT c vs recurse flt tf retain. unfold t_astuple.
+  cbn [obind bind tv_fields tv_field_values].
   rewrite (loop_fields_list _ (passes flt)
              (fun _ v => astuple_field E (fun flt' x => rT x true flt' (tf_cls tf) retain) recurse retain flt v)).
   - destruct (fields_loop _ _ _ _) as [items|]; cbn; [|reflexivity]. destruct tf; reflexivity.
   - intros l a v. unfold astuple_field, passes.
-    destruct flt as [p|]; cbn; [destruct (p a v); cbn; [|reflexivity]|].
+    destruct flt as [p|]; cbn; [destruct (p a v) as [[|]|]; cbn; try reflexivity|].
     all: destruct recurse; cbn; try reflexivity.
     all: destruct v as [t i | s | c' fs | xs | t xs | xs | xs | dk kvs | w x | ]; cbn; try reflexivity.
-    all: try (destruct (rT _ _ _ _ _); reflexivity).
+    all: try solve [fin].
     all: try (match goal with |- context [seq_conv (astuple_member ?g) ?xs] =>
                 rewrite (seq_conv_ext_all _ (astuple_member g))
                   by (intros j; destruct j; solve [fin])
               end;
-              destruct retain; cbn;
-              match goal with |- context [seq_conv ?f ?l] => destruct (seq_conv f l) end; solve [fin]).
-    all: match goal with |- context [pairs_conv ?fk ?fv ?l] => rewrite (pairs_conv2_ext _ fk fv) end;
-         [destruct (pairs_conv _ _ kvs) as [ps|]; destruct retain; solve [fin]
-         |intros a0 b0; destruct a0, b0; solve [fin]].
+              destruct retain; cbn; unfold obind, bind;
+              match goal with |- context [seq_conv ?f ?l] => destruct (seq_conv f l) end; cbn;
+              rewrite ?tie_rebuild_collection; solve [fin]).
+    all: destruct retain; cbn.
+    all: match goal with |- context [pairs_conv ?e ?fk ?fv ?l] => rewrite (pairs_conv2_ext e _ fk fv) end;
+         [solve [fin] | intros a0 b0; destruct a0, b0; solve [fin]].
 Qed.
 
 (** ** next-gen wrappers and the defaults of the public signatures *)
@@ -250,33 +235,46 @@ Lemma tie_defaults :
 Proof. split; reflexivity. Qed.
 
 (** ** The model functions are a fixed point of the source's recursion equations:
-    running the translated source with the model functions as callees gives the model functions. *)
-Theorem tie_asdict_anything_closed : forall E rT v k flt df retain ser,
-  t_asdict_anything E (asdict_cls E) (anything_cls E) (rebuild_cls E) rT (TSame v) k flt (ClsDict df) retain ser
+    running the translated source with the model functions (and the translated
+    helper) as callees gives the model functions. *)
+Theorem tie_asdict_anything_closed : forall E rA rN rR rT v k flt df retain ser,
+  t_asdict_anything E (asdict_cls E) (anything_cls E) (t_rebuild_collection E rA rN rR rT) rT
+    (TSame v) k flt (ClsDict df) retain ser
   = asdict_anything E k retain flt df ser v.
-Proof. intros. rewrite tie_asdict_anything, asdict_anything_unfold. reflexivity. Qed.
+Proof.
+  intros. rewrite tie_asdict_anything, asdict_anything_unfold. unfold anything_step.
+  destruct v; try reflexivity; cbn; destruct (seq_conv _ _); cbn; try reflexivity;
+    rewrite tie_rebuild_collection; reflexivity.
+Qed.
 
-Lemma fields_loop_ext' {B} keep (c1 c2 : field -> val -> option B) : forall vs fs,
+Lemma fields_loop_ext' {B} keep (c1 c2 : field -> val -> res B) : forall vs fs,
   (forall f v, c1 f v = c2 f v) -> fields_loop keep c1 fs vs = fields_loop keep c2 fs vs.
 Proof.
   intros vs fs H. revert fs. induction vs as [|v r IH]; intros fs; [reflexivity|].
   destruct fs as [|f fs']; [reflexivity|]. cbn. now rewrite H, IH.
 Qed.
 
-Theorem tie_asdict_closed : forall E rT c vs recurse flt df retain ser,
-  t_asdict E (asdict_cls E) (anything_cls E) (rebuild_cls E) rT (TSame (VI c vs)) recurse flt (ClsDict df) retain ser
+Theorem tie_asdict_closed : forall E rA rN rR rT c vs recurse flt df retain ser,
+  t_asdict E (asdict_cls E) (anything_cls E) (t_rebuild_collection E rA rN rR rT) rT
+    (TSame (VI c vs)) recurse flt (ClsDict df) retain ser
   = asdict E recurse retain flt df ser (VI c vs).
 Proof.
-  intros. rewrite tie_asdict. unfold asdict, asdict_body.
+  intros.
+  transitivity (t_asdict E (asdict_cls E) (anything_cls E)
+                  (t_rebuild_collection E (asdict_cls E) (anything_cls E) rR rT) rT
+                  (TSame (VI c vs)) recurse flt (ClsDict df) retain ser).
+  { reflexivity. }
+  rewrite tie_asdict. unfold asdict, asdict_body.
   rewrite (fields_loop_ext' (passes flt) _
              (asdict_field E (asdict_anything E false retain flt df ser)
                 (fun k => asdict_anything E k retain flt df ser) recurse retain df ser c)).
   - reflexivity.
-  - intros f v. unfold asdict_field. destruct (ser_apply ser (Some (c, fst f)) v); [reflexivity|].
+  - intros f v. unfold asdict_field. destruct (ser_apply ser (Some (c, fst f)) v) as [[x|]|]; try reflexivity.
     destruct recurse; [|reflexivity]. destruct v; reflexivity.
 Qed.
 
-Theorem tie_astuple_closed : forall E rA rN c vs recurse flt tf retain,
-  t_astuple E rA rN (rebuild_cls E) (astuple_cls E) (TSame (VI c vs)) recurse flt (tf_cls tf) retain
+Theorem tie_astuple_closed : forall E rA rN rR c vs recurse flt tf retain,
+  t_astuple E rA rN (t_rebuild_collection E rA rN rR (astuple_cls E)) (astuple_cls E)
+    (TSame (VI c vs)) recurse flt (tf_cls tf) retain
   = astuple E recurse retain flt tf (VI c vs).
 Proof. intros. rewrite tie_astuple, astuple_unfold. destruct tf; reflexivity. Qed.
